@@ -37,6 +37,23 @@ impl Hash for Item {
     }
 }
 
+/// The same with a long hash input: 80 constant bytes in front of the value (like long lines or
+/// paths with a long common prefix); `==` is counted on the same counter.
+#[derive(Clone, Copy, Debug, Eq, PartialOrd, Ord)]
+pub struct LongItem(pub u32);
+impl PartialEq for LongItem {
+    fn eq(&self, other: &LongItem) -> bool {
+        CMPS.with(|c| c.set(c.get() + 1));
+        self.0 == other.0
+    }
+}
+impl Hash for LongItem {
+    fn hash<H: Hasher>(&self, state: &mut H) {
+        state.write(&[0x61u8; 80]);
+        self.0.hash(state)
+    }
+}
+
 pub fn items(xs: &[u32]) -> Vec<Item> {
     xs.iter().map(|x| Item(*x)).collect()
 }
@@ -94,6 +111,18 @@ pub fn install_clock(fuel: i64, log: bool) {
         }
         exp
     })));
+}
+/// A hostile clock for entry points that take NO deadline: every deadline check made with a
+/// deadline present is answered "exceeded".  Code that passes `None` never asks, so on such
+/// paths the clock must be unobservable.
+pub fn install_hostile_clock() {
+    similar::verif_hooks::install_clock(Some(Box::new(|| true)));
+}
+pub fn hostile<T>(f: impl FnOnce() -> T) -> T {
+    install_hostile_clock();
+    let r = f();
+    remove_clock();
+    r
 }
 pub fn remove_clock() {
     similar::verif_hooks::install_clock(None);
